@@ -187,13 +187,15 @@ theorem IsTrans1.rev {C G S J} (h : NetSetting C G S J) {x y : PS} (t : IsTrans1
   exact ⟨hy, hx, zy, zx, jump.neg, h.negJ jump hj, add_neg_cancel hadd⟩
 
 /-- a class of the omega1 network: generated by a genuine transition -/
-structure Class1OK (C : Crys) (G : List Op) (S J : List PS) (c : JClass) : Prop where
-  trans : IsTrans1 S J c.i c.f
+structure Class1OK (C : Crys) (G : List Op) (S : List PS) (Jcls : List (List PS)) (c : JClass) : Prop where
+  trans : IsTrans1 S Jcls.flatten c.i c.f
   entries : c.entries = symmEquiv G S c.i c.f (dxOf C c.f - dxOf C c.i)
+  /-- the recorded jump type is the index of the jump class that holds the generating jump -/
+  jt_ok : ∃ cls, Jcls[c.jt]? = some cls ∧ ∃ jump ∈ cls, c.i.add jump = some c.f
 
-structure NetInv1 (C : Crys) (G : List Op) (S J : List PS) (net : List JClass) : Prop where
+structure NetInv1 (C : Crys) (G : List Op) (S : List PS) (Jcls : List (List PS)) (net : List JClass) : Prop where
   nodup : (netPairs net).Nodup
-  ok : ∀ c ∈ net, Class1OK C G S J c
+  ok : ∀ c ∈ net, Class1OK C G S Jcls c
 
 /-- adding the class of a pair that is in no class yet keeps the pairs duplicate-free -/
 theorem nodup_append_class {C G S J} (h : NetSetting C G S J) {net : List JClass} {i f : PS} {dx : QVec}
@@ -223,8 +225,10 @@ theorem nodup_append_class {C G S J} (h : NetSetting C G S J) {net : List JClass
     rw [hkg i (h.validS i hi), hkg f (h.validS f hf)] at this
     exact symmEquiv_reversal_closed _ _ _ _ _ _ _ this
 
-theorem om1Step_inv {C G S J} (h : NetSetting C G S J) {jt : Nat} {jump x : PS} (hjump : jump ∈ J) (hx : x ∈ S)
-    {net : List JClass} (hnet : NetInv1 C G S J net) : NetInv1 C G S J (om1Step C G S jt jump net x) := by
+theorem om1Step_inv {C G S} {Jcls : List (List PS)} (h : NetSetting C G S Jcls.flatten) {jt : Nat} {cls : List PS}
+    (hcls : Jcls[jt]? = some cls) {jump x : PS} (hjc : jump ∈ cls) (hx : x ∈ S)
+    {net : List JClass} (hnet : NetInv1 C G S Jcls net) : NetInv1 C G S Jcls (om1Step C G S jt jump net x) := by
+  have hjump : jump ∈ Jcls.flatten := List.mem_flatten.2 ⟨cls, List.mem_of_getElem? hcls, hjc⟩
   unfold om1Step
   split
   · exact hnet
@@ -243,7 +247,7 @@ theorem om1Step_inv {C G S J} (h : NetSetting C G S J) {jt : Nat} {jump x : PS} 
   rename_i hhas
   have hy : y ∈ S := (lookup_eq_some_iff.1 hlk).1
   have hnew : (some x, some y) ∉ netPairs net := fun hm => hhas (netHas_iff.2 hm)
-  have tr : IsTrans1 S J x y := ⟨hx, hy, by simpa using hzx, by simpa using hzy, jump, hjump, hadd⟩
+  have tr : IsTrans1 S Jcls.flatten x y := ⟨hx, hy, by simpa using hzx, by simpa using hzy, jump, hjump, hadd⟩
   refine ⟨?_, ?_⟩
   · exact nodup_append_class h hnet.nodup
       (fun c hc => ⟨c.i, c.f, _, (hnet.ok c hc).trans.1, (hnet.ok c hc).trans.2.1, (hnet.ok c hc).entries⟩)
@@ -253,15 +257,14 @@ theorem om1Step_inv {C G S J} (h : NetSetting C G S J) {jt : Nat} {jump x : PS} 
     · exact hnet.ok c hc
     · simp only [List.mem_cons, List.not_mem_nil, or_false] at hc
       subst hc
-      exact ⟨tr, rfl⟩
+      exact ⟨tr, rfl, cls, hcls, jump, hjc, hadd⟩
 
 theorem omega1_inv {C G S} {Jcls : List (List PS)} (h : NetSetting C G S Jcls.flatten) :
-    NetInv1 C G S Jcls.flatten (omega1 C G Jcls S) := by
+    NetInv1 C G S Jcls (omega1 C G Jcls S) := by
   unfold omega1
   refine loopNet_inv ⟨by simp [netPairs], by simp⟩ ?_
   intro cls jt hcls jump hjump x hx net hnet
-  have : jump ∈ Jcls.flatten := List.mem_flatten.2 ⟨cls, List.fst_mem_of_mem_zipIdx hcls, hjump⟩
-  exact om1Step_inv h this hx hnet
+  exact om1Step_inv h (List.mem_zipIdx_iff_getElem?.1 hcls) hjump hx hnet
 
 theorem om1Step_mono {C G S} {jt : Nat} {jump x : PS} {net : List JClass} {p : Option PS × Option PS}
     (hp : p ∈ netPairs net) : p ∈ netPairs (om1Step C G S jt jump net x) := by
@@ -291,8 +294,9 @@ theorem omega1_pairs_nodup {C G S} {Jcls : List (List PS)} (h : NetSetting C G S
     (netPairs (omega1 C G Jcls S)).Nodup := (omega1_inv h).nodup
 
 /-- the members of a class generated by a transition are transitions -/
-theorem class1_members {C G S J} (h : NetSetting C G S J) {c : JClass} (hc : Class1OK C G S J c)
-    {p : Option PS × Option PS} (hp : p ∈ pairs c.entries) : ∃ x y, p = (some x, some y) ∧ IsTrans1 S J x y := by
+theorem class1_members {C G S} {Jcls : List (List PS)} (h : NetSetting C G S Jcls.flatten) {c : JClass}
+    (hc : Class1OK C G S Jcls c) {p : Option PS × Option PS} (hp : p ∈ pairs c.entries) :
+    ∃ x y, p = (some x, some y) ∧ IsTrans1 S Jcls.flatten x y := by
   have hG := h.group
   obtain ⟨hi, hf, _⟩ := hc.trans
   rw [hc.entries, mem_pairs_symmEquiv_closed hG h.closedS hi hf (h.validS _ hi) (h.validS _ hf)] at hp
@@ -324,6 +328,17 @@ theorem omega1_class_closed {C G S} {Jcls : List (List PS)} (h : NetSetting C G 
   rw [ok.entries] at hp ⊢
   exact ⟨symmEquiv_reversal_closed _ _ _ _ _ _ _ hp,
     fun k hk => symmEquiv_G_closed h.group h.closedS hi hf (h.validS _ hi) (h.validS _ hf) hp hk⟩
+
+/-- **jump type**: the type recorded with a class is the index of the jump class containing the
+    jump that carries the generating pair `i → f` -/
+theorem omega1_jumptype {C G S} {Jcls : List (List PS)} (h : NetSetting C G S Jcls.flatten) {c : JClass}
+    (hc : c ∈ omega1 C G Jcls S) :
+    (some c.i, some c.f) ∈ pairs c.entries ∧
+      ∃ cls, Jcls[c.jt]? = some cls ∧ ∃ jump ∈ cls, c.i.add jump = some c.f := by
+  have ok := (omega1_inv h).ok c hc
+  refine ⟨?_, ok.jt_ok⟩
+  rw [ok.entries]
+  exact mem_pairs_symmEquiv.2 (Or.inl (Or.inl rfl))
 
 theorem dx_rot {C G S J} (h : NetSetting C G S J) {g : Op} (hg : g ∈ G) {s : PS} (hs : s ∈ S) :
     dxOf C (act g s) = g.rot.mulQ (dxOf C s) := dxOf_act (h.shift hg) (h.validS s hs)
